@@ -329,3 +329,7 @@ Theorem C16_algebra_check : forall (R : Type) (self_alg : nat) (f : mv R -> mv R
   a <> b -> call_binary_total self_alg f (OMv a x) (OMv b y) = Err EAlgebra.
 Proof. exact @algebra_check. Qed.
 Print Assumptions C16_algebra_check.
+
+(* ---- source pins: the functions whose hand-written model (Model/Storage.v) carries the theorems above are still, textually
+   (after ast normalisation), the functions the model was validated against; an edit breaks Bridge/Pins_C16.v ---- *)
+From KV Require Bridge.Pins_C16.
